@@ -1696,6 +1696,20 @@ impl SctpInner {
         let _inbound_streams = buf.get_u16();
         let initial_tsn = buf.get_u32();
 
+        // Set-up packets can be duplicated or arrive late. An INIT that reaches an
+        // established association must not touch it: over DTLS a peer restart comes
+        // with a new DTLS association, so this is a stray copy of the INIT that
+        // created the association. And a copy of the INIT we are answering right now
+        // (same initiate tag, association not up yet) gets the same INIT-ACK again -
+        // a fresh tag / initial TSN would disagree with the INIT-ACK the peer may
+        // already have acted on.
+        if *self.state.lock() == SctpState::Connected {
+            debug!("SCTP: ignoring INIT on an established association");
+            return Ok(());
+        }
+        let retransmitted = initiate_tag != 0
+            && self.remote_verification_tag.load(Ordering::SeqCst) == initiate_tag;
+
         self.peer_rwnd.store(a_rwnd, Ordering::SeqCst);
         let init_ssthresh = (a_rwnd as usize).max(SSTHRESH_MIN);
         self.ssthresh.store(init_ssthresh, Ordering::SeqCst);
@@ -1705,7 +1719,11 @@ impl SctpInner {
             .store(initial_tsn.wrapping_sub(1), Ordering::SeqCst);
 
         // Generate local tag
-        let local_tag = random_u32();
+        let local_tag = if retransmitted {
+            self.verification_tag.load(Ordering::SeqCst)
+        } else {
+            random_u32()
+        };
         self.verification_tag.store(local_tag, Ordering::SeqCst);
 
         // Generate HMAC-protected state cookie
@@ -1721,7 +1739,11 @@ impl SctpInner {
         // Inbound streams
         init_ack_params.put_u16(10);
         // Initial TSN
-        let initial_tsn = random_u32();
+        let initial_tsn = if retransmitted {
+            self.next_tsn.load(Ordering::SeqCst)
+        } else {
+            random_u32()
+        };
         self.next_tsn.store(initial_tsn, Ordering::SeqCst);
         init_ack_params.put_u32(initial_tsn);
 
@@ -1752,6 +1774,12 @@ impl SctpInner {
     }
 
     async fn handle_init_ack(&self, chunk: Bytes) -> Result<()> {
+        // RFC 4960 5.2.3: an INIT ACK is only expected while the association is
+        // being set up; a late copy must not reset an established one.
+        if *self.state.lock() == SctpState::Connected {
+            debug!("SCTP: ignoring INIT ACK on an established association");
+            return Ok(());
+        }
         self.t1_cancel();
 
         let mut buf = chunk;
